@@ -481,3 +481,24 @@ Definition dispatch (w : wire) : option packer :=
   end.
 Definition unpack_pkgr (v : variant) (party : list N) (w : wire) : res (term * option N * N) :=
   match dispatch w with Some p => unpack v p party w | None => Err EInvalid end.
+
+(* ---------- recipient lists of mixed key types ---------- *)
+(* [ktf k] = the key type of key k.  What the code does (jose.JWEEncrypt.getWrapKeyOpts, tinkcrypto key_wrapper):
+   anoncrypt wraps for every recipient independently; the key-wrap flavour (XC20PKW or A256KW) is chosen from the
+   FIRST recipient's type for all of them, and each recipient unwraps by the alg it reads: any mix works.
+   authcrypt (ECDH-1PU) needs sender, ephemeral and recipient keys on one curve: a recipient of another type than the
+   sender makes Pack fail (derive1PUKEK: "not an EC key" / "not an OKP key" / "not on the same curve"). *)
+Definition ktype_eqb (a b : ktype) : bool :=
+  match a, b with
+  | X25519, X25519 | P256, P256 | P384, P384 | P521, P521 | Ed25519, Ed25519 => true
+  | _, _ => false
+  end.
+Definition with_kt (c : cfg) (k : ktype) : cfg := mkcfg (packer_of c) k (enc_of c) (style_of c).
+Definition pack_mixed (ktf : N -> ktype) (c : cfg) (spar : list N) (payload sender : N) (rcpts : list N) (rn : rnd)
+  : res wire :=
+  match packer_of c with
+  | JweAuth => if forallb (fun r => ktype_eqb (ktf r) (ktf sender)) rcpts
+               then pack (with_kt c (ktf sender)) spar payload sender rcpts rn else Err ERejected
+  | JweAnon => pack (with_kt c (match rcpts with r :: _ => ktf r | [] => kt_of c end)) spar payload sender rcpts rn
+  | _ => pack c spar payload sender rcpts rn
+  end.
